@@ -48,6 +48,13 @@ func main() {
 			os.Exit(2)
 		}
 		os.Exit(sim.Replay(os.Args[2]))
+	case "one":
+		fs := flag.NewFlagSet("one", flag.ExitOnError)
+		prop := fs.String("prop", "", "property")
+		seed := fs.Uint64("runseed", 0, "run seed")
+		tier := fs.String("tier", "quick", "tier")
+		fs.Parse(os.Args[2:])
+		os.Exit(sim.RunOne(*prop, *seed, *tier))
 	case "info":
 		ch := sim.Registry[os.Args[2]]
 		if ch == nil {
